@@ -10,7 +10,7 @@ CHECKS = [
   "note": NOTE},
  {"property_id": "C06", "technique": "static: dominance (pull-before-drop), paired-store analysis, reaching-definition layout provenance",
   "text": "Decides: a view pulls its gradient before clear_graph drops its creator; every nulling of _grad is paired with nulling _view_grad; Tensor.grad replays the view op untracked and "
-          "validates its cache by base identity and returns a cached view gradient only validated or freshly recomputed; the first contribution stored in var._grad must be allocated with var.data's layout (fails today: known finding D5)." + NOT_DECIDED +
+          "validates its cache by base identity and returns a cached view gradient only validated or freshly recomputed; the first contribution stored in var._grad has var.data's memory layout (D5, repaired)." + NOT_DECIDED +
           "value equality of v.grad with the replayed chain.", "note": NOTE},
  {"property_id": "C07", "technique": "static: who-may-write / typestate of back-references (weak vs strong), must-reach graph cuts on clear_graph and backward",
   "text": "Decides: everything added to Tensor._ops is a weakref and _view_children is always a WeakRefIterable; no op holds its own output strongly; state handed to the internal UnView/ApplyMask ops captures placeholders only; finalizer arguments are weak containers; "
@@ -98,7 +98,7 @@ ADDENDA = {
  "C03": "Also: Tensor.__array_ufunc__ evaluates forwarded ufuncs through getattr(ufunc, method) (outer/reduce/accumulate honoured); a parameter that a function inspects with isinstance is still read when it is of none of the tested types (CFG specialised with every such test false): no legal argument is silently ignored; a where= mask given as a Tensor is unwrapped (D19, repaired).",
  "C04": "Also: a wholesale rebuild of a _view_children list maps the same tensor's own children (D15, repaired).",
  "C05": "Also: building the placeholder graph leaves the originals untouched; dtype-kind tests (integer-array index detection of SetItem/GetItem) name abstract scalar classes, never one width (D16, repaired); index classifiers decide from the converted element only, never from its Python type; the routing ops (SetItem, UnView, ApplyMask) and the ufunc where-mask in Operation.backward drop excluded entries by assignment/selection, never by scaling with a 0/1 mask -- 0 * nan = nan leaked non-finite gradients into overwritten / masked-out contents (D28, three sites repaired).",
- "C06": "Also: any copy made of the first contribution keeps the producer's layout (np.copy / order='K').",
+ "C06": "Also: any copy made of the first contribution keeps the producer's layout (np.copy / order='K'). D5 is repaired (3723d34): R06.4 now proves, path-sensitively, that the stored first contribution is either a buffer allocated *_like(var.data) and filled from the contribution, or reaches the store only over the equal-strides edge of the test against var.data.strides through layout-preserving maps.",
  "C07": "Also: before a placeholder graph is built, in every function that builds one (_in_place_op and the .shape setter), the gradient of the target and of the base that owns the memory is nulled (D13/D14, repaired); a stale base is dropped for view and non-view ops alike; the public null_grad() touches view information only for internal callers.",
  "C09": "Also: an op that overrides backward() still passes the guard (super().backward on every path, or its own test); Tensor.backward clears the graph only on its normal continuation (never in finally/except), so a failed back-propagation fails again.",
  "C10": "Also: value stores to the cached view gradient (_view_grad) carry the same obligation (D17, repaired); no function accepts `constant` without using it.",
